@@ -16,8 +16,8 @@ def run(args):
         for pid in PIDS:
             keys, err = failing_keys(pid, d)
             new = sorted(k for k in keys if k not in baseline[pid])
-            if err: fired[pid] = ["ERR " + err[:200]]
-            elif new: fired[pid] = [f"{r}[{k}]" for r,k in new[:4]]
+            if new: fired[pid] = [f"{r}[{k}]" for r,k in new[:4]] + (["(then: " + err[:120] + ")"] if err else [])
+            elif err: fired[pid] = ["ERR " + err[:200]]
         return name, fired
     finally:
         shutil.rmtree(d, ignore_errors=True)
